@@ -138,6 +138,11 @@ def stale_calls(w, rng):
     for a in w.alive('A'):
         out += ['cr_use dims %s' % a.slot, 'cr_use da_read1 %s' % a.slot, 'cr_use da_fill %s %s' % (a.slot, lst([f64(1.0)])),
                 'cr_use adim %s set %s' % (a.slot, lst([S('x')])), 'cr_use listlink src %s' % a.slot]
+    # every getter of every kind, one by one
+    FIELDS = {'A': ['dtype', 'shape', 'origin', 'poly', 'label', 'unit', 'dimcount'], 'T': ['pos', 'ext', 'units'], 'M': ['units'], 'D': ['rows', 'cols']}
+    for e in w.alive(['B', 'S', 'O', 'G', 'A', 'D', 'T', 'M']):
+        for f in ['id', 'name', 'type', 'def', 'created', 'updated'] + FIELDS.get(e.kind, []):
+            out.append('cr_use fld %s %s' % (e.slot, f))
     for p in w.alive('P'):
         out += ['cr_use pget %s' % p.slot, 'cr_use pvalues %s []' % p.slot]
     for t in w.alive(['T', 'M']):
